@@ -350,3 +350,719 @@ pub fn replay_c16_ffi(v: &serde_json::Value) -> Vec<(String, String)> {
 fn unused(_: BTreeMap<u8, u8>, _: Condvar) -> String {
     hex(&[])
 }
+
+// ---------------------------------------------------------------------------------------------
+// C19: the point database
+// ---------------------------------------------------------------------------------------------
+
+#[derive(Clone, Default)]
+struct RefDb {
+    t: [BTreeMap<u16, u16>; 4],
+}
+
+impl RefDb {
+    fn apply(&mut self, op: &DbOp) -> DbResult {
+        match *op {
+            DbOp::Add(t, i, v) => {
+                let v = if t < 2 { (v != 0) as u16 } else { v };
+                if self.t[t as usize].contains_key(&i) {
+                    DbResult::Bool(false)
+                } else {
+                    self.t[t as usize].insert(i, v);
+                    DbResult::Bool(true)
+                }
+            }
+            DbOp::Update(t, i, v) => {
+                let v = if t < 2 { (v != 0) as u16 } else { v };
+                match self.t[t as usize].get_mut(&i) {
+                    Some(x) => {
+                        *x = v;
+                        DbResult::Bool(true)
+                    }
+                    None => DbResult::Bool(false),
+                }
+            }
+            DbOp::Delete(t, i) => DbResult::Bool(self.t[t as usize].remove(&i).is_some()),
+            DbOp::Get(t, i) => match self.t[t as usize].get(&i) {
+                Some(v) => DbResult::Value(*v),
+                // ParamError::InvalidIndex
+                None => DbResult::Error(10),
+            },
+        }
+    }
+}
+
+fn db_alphabet(types: &[u8]) -> Vec<DbOp> {
+    let mut v = vec![];
+    for t in types {
+        for i in [0u16, 1, 0xFFFF] {
+            for val in [1u16, 0] {
+                v.push(DbOp::Add(*t, i, if *t < 2 { val } else { val + 0x1000 + (i & 0xFF) }));
+                v.push(DbOp::Update(*t, i, if *t < 2 { 1 - val } else { val + 0x2000 }));
+            }
+            v.push(DbOp::Delete(*t, i));
+            v.push(DbOp::Get(*t, i));
+        }
+    }
+    v
+}
+
+/// one client read over the socket; returns the reply PDU
+fn socket_read(s: &mut TcpStream, tx: u16, fc: u8, start: u16, count: u16) -> Result<Vec<u8>, String> {
+    let mut p = vec![fc];
+    p.extend_from_slice(&start.to_be_bytes());
+    p.extend_from_slice(&count.to_be_bytes());
+    s.write_all(&mbap_frame(tx, 1, &p)).map_err(|e| e.to_string())?;
+    let head = read_exact_timeout(s, 7, 3000).map_err(|b| format!("no reply header ({} bytes)", b.len()))?;
+    if head[..2] != tx.to_be_bytes() {
+        return Err(format!("reply has transaction id {:02x}{:02x}", head[0], head[1]));
+    }
+    let len = u16::from_be_bytes([head[4], head[5]]) as usize;
+    read_exact_timeout(s, len - 1, 3000).map_err(|b| format!("short reply ({} bytes)", b.len()))
+}
+
+fn expected_read(db: &RefDb, fc: u8, start: u16, count: u16) -> Vec<u8> {
+    let t = (fc - 1) as usize;
+    let mut vals = vec![];
+    for k in 0..count {
+        match db.t[t].get(&start.wrapping_add(k)) {
+            Some(v) => vals.push(*v),
+            None => return vec![fc | 0x80, 2],
+        }
+    }
+    if fc <= 2 {
+        let bits: Vec<bool> = vals.iter().map(|x| *x != 0).collect();
+        let data = crate::refmodel::pdu::pack_bits(&bits);
+        let mut p = vec![fc, data.len() as u8];
+        p.extend(data);
+        p
+    } else {
+        let mut p = vec![fc, (2 * vals.len()) as u8];
+        for v in vals {
+            p.extend_from_slice(&v.to_be_bytes());
+        }
+        p
+    }
+}
+
+fn c19_map_semantics(rep: &mut Report) {
+    let thorough = rep.thorough();
+    // (a) sequences inside the configuration callback of device_map_add_endpoint (fresh database)
+    let alpha = db_alphabet(&[0, 1, 2, 3]);
+    let depth = if thorough { 3 } else { 2 };
+    let st = on_plain_thread(|| {
+        let mut st = Stats::default();
+        let mut seq: Vec<usize> = vec![];
+        fn rec(alpha: &[DbOp], seq: &mut Vec<usize>, depth: usize, st: &mut Stats) {
+            if !seq.is_empty() {
+                let ops: Vec<DbOp> = seq.iter().map(|i| alpha[*i].clone()).collect();
+                let (wh, _d) = write_handler(Arc::new(Mutex::new(WriteState::default())), [false; 4]);
+                let (map, got) = device_map(7, wh, ops.clone());
+                unsafe { ffi::rodbus_device_map_destroy(map) };
+                let mut r = RefDb::default();
+                let exp: Vec<DbResult> = ops.iter().map(|o| r.apply(o)).collect();
+                st.evaluations += 1;
+                st.traces += 1;
+                st.transitions += ops.len() as u64;
+                st.state(&r.t);
+                st.observe(&got);
+                st.class("configure-callback-sequence");
+                if got != exp {
+                    st.violation(Violation {
+                        signature: "database-map-semantics".into(),
+                        summary: format!("ops {ops:?}: C ABI returned {got:?}, a per-type map returns {exp:?}"),
+                        replay: json!({"kind": "c19-db", "ops": ops}),
+                    });
+                    return;
+                }
+                if st.traces % 997 == 1 {
+                    st.sample(json!({"ops": format!("{ops:?}"), "results": format!("{got:?}")}));
+                }
+            }
+            if seq.len() == depth {
+                return;
+            }
+            for i in 0..alpha.len() {
+                seq.push(i);
+                rec(alpha, seq, depth, st);
+                seq.pop();
+            }
+        }
+        rec(&alpha, &mut seq, depth, &mut st);
+        // deeper sequences on one type (the four tables share their code)
+        let alpha1 = db_alphabet(&[2]);
+        let d1 = if depth == 3 { 5 } else { 4 };
+        rec(&alpha1, &mut vec![], d1, &mut st);
+        let alpha0 = db_alphabet(&[0]);
+        rec(&alpha0, &mut vec![], d1 - 1, &mut st);
+        st
+    });
+    rep.phase("map semantics inside device_map_add_endpoint", st, json!({"depth": depth}));
+    // (b) sequences inside server_update_database transactions, interleaved with client reads
+    let st = on_plain_thread(|| {
+        let mut st = Stats::default();
+        let rt = FfiRuntime::new(2);
+        let (server, addr, _log) = match ffi_server(&rt, Variant::Tcp, &FilterSpec::Any, "127.0.0.1", vec![], Arc::new(Mutex::new(WriteState::default())), [false; 4]) {
+            Ok(x) => x,
+            Err(e) => {
+                st.violation(Violation { signature: "MACHINERY:c-abi-server".into(), summary: e, replay: json!({}) });
+                return st;
+            }
+        };
+        let mut sock = match connect_from("127.0.0.1", addr) {
+            Ok(s) => s,
+            Err(e) => {
+                st.violation(Violation { signature: "MACHINERY:connect".into(), summary: e.to_string(), replay: json!({}) });
+                return st;
+            }
+        };
+        let mut model = RefDb::default();
+        let mut tx = 0u16;
+        let mut seq: Vec<usize> = vec![];
+        let alpha = db_alphabet(&[0, 1, 2, 3]);
+        // a fixed pseudo-exhaustive walk: every ordered pair of operations, each pair as one
+        // transaction on the evolving database, followed by client reads of all four types
+        let pairs: Vec<(usize, usize)> = (0..alpha.len()).flat_map(|a| (0..alpha.len()).map(move |b| (a, b))).collect();
+        let step = if thorough { 1 } else { 7 };
+        for (k, (a, b)) in pairs.iter().enumerate() {
+            if k % step != 0 {
+                continue;
+            }
+            seq.clear();
+            seq.push(*a);
+            seq.push(*b);
+            let ops: Vec<DbOp> = seq.iter().map(|i| alpha[*i].clone()).collect();
+            let got: Arc<Mutex<Vec<DbResult>>> = Arc::new(Mutex::new(vec![]));
+            let g2 = got.clone();
+            let ops2 = ops.clone();
+            let rc = update_database(&server, 1, Box::new(move |db| {
+                for op in &ops2 {
+                    g2.lock().unwrap().push(unsafe { db_apply(db, op) });
+                }
+            }));
+            let exp: Vec<DbResult> = ops.iter().map(|o| model.apply(o)).collect();
+            st.evaluations += 1;
+            st.traces += 1;
+            st.transitions += 2;
+            st.state(&model.t);
+            st.class("transaction-sequence");
+            let got = got.lock().unwrap().clone();
+            if rc != OK || got != exp {
+                st.violation(Violation {
+                    signature: "database-map-semantics:transaction".into(),
+                    summary: format!("transaction {ops:?} (rc {rc}): C ABI returned {got:?}, expected {exp:?}"),
+                    replay: json!({"kind": "c19-db", "ops": ops}),
+                });
+                break;
+            }
+            // client reads: one point, and two points that may span a hole
+            for fc in 1..=4u8 {
+                for (start, count) in [(0u16, 1u16), (0, 2), (1, 1), (0xFFFF, 1)] {
+                    tx = tx.wrapping_add(1);
+                    st.evaluations += 1;
+                    let want = expected_read(&model, fc, start, count);
+                    st.class(if want[0] & 0x80 != 0 { "client-read-absent-point" } else { "client-read-values" });
+                    match socket_read(&mut sock, tx, fc, start, count) {
+                        Ok(p) if p == want => {}
+                        Ok(p) => {
+                            st.violation(Violation {
+                                signature: if want[0] & 0x80 != 0 { "absent-point-not-exception-02".into() } else { "client-read-values".into() },
+                                summary: format!("after {ops:?}: read fc {fc} start {start} count {count} answered {} expected {}", hex(&p), hex(&want)),
+                                replay: json!({"kind": "c19-db", "ops": ops}),
+                            });
+                        }
+                        Err(e) => st.violation(Violation { signature: "client-read-failed".into(), summary: e, replay: json!({"kind": "c19-db", "ops": ops}) }),
+                    }
+                    st.observe(&(fc, start, count, &want));
+                }
+            }
+            if !st.violations.is_empty() {
+                break;
+            }
+        }
+        // an unknown unit id is reported, not applied
+        let rc = update_database(&server, 9, Box::new(|_| {}));
+        if rc != 12 {
+            st.violation(Violation { signature: "update-database-unknown-unit".into(), summary: format!("rc {rc}, expected InvalidUnitId (12)"), replay: json!({}) });
+        }
+        drop(sock);
+        drop(server);
+        st
+    });
+    rep.phase("transactions interleaved with client reads", st, json!({}));
+}
+
+// --- the cooperative scheduler -------------------------------------------------------------------
+
+#[derive(Clone, Debug, PartialEq)]
+enum AState {
+    Running,
+    /// waiting at a point; `stamp` = number of grants when it arrived after finding the mutex taken
+    AtPoint { what: String, blocked_at: Option<u64> },
+    Done,
+}
+
+struct SchedInner {
+    actors: BTreeMap<usize, AState>,
+    granted: BTreeMap<usize, bool>,
+    was_blocked: BTreeMap<usize, bool>,
+    threads: Vec<(std::thread::ThreadId, usize)>,
+    grants: u64,
+    trace: Vec<String>,
+    blocked_events: u64,
+}
+
+pub struct CoopSched {
+    inner: Mutex<SchedInner>,
+    cv: Condvar,
+}
+
+const ACTOR_SERVER: usize = 0;
+
+impl CoopSched {
+    fn new() -> Arc<Self> {
+        Arc::new(CoopSched {
+            inner: Mutex::new(SchedInner { actors: BTreeMap::new(), granted: BTreeMap::new(), was_blocked: BTreeMap::new(), threads: vec![], grants: 0, trace: vec![], blocked_events: 0 }),
+            cv: Condvar::new(),
+        })
+    }
+    fn register_current(&self, id: usize) {
+        let mut g = self.inner.lock().unwrap();
+        g.threads.push((std::thread::current().id(), id));
+        g.actors.insert(id, AState::Running);
+    }
+    fn actor_of_current(g: &SchedInner) -> usize {
+        let me = std::thread::current().id();
+        g.threads.iter().find(|x| x.0 == me).map(|x| x.1).unwrap_or(ACTOR_SERVER)
+    }
+    fn mark_done(&self, id: usize) {
+        let mut g = self.inner.lock().unwrap();
+        g.actors.insert(id, AState::Done);
+        self.cv.notify_all();
+    }
+}
+
+impl rodbus::verif::sched::Scheduler for CoopSched {
+    fn point(&self, point: rodbus::verif::sched::Point) {
+        let mut g = self.inner.lock().unwrap();
+        let id = Self::actor_of_current(&g);
+        let blocked = g.was_blocked.insert(id, false).unwrap_or(false);
+        let stamp = g.grants;
+        g.actors.insert(id, AState::AtPoint { what: format!("{point:?}"), blocked_at: if blocked { Some(stamp) } else { None } });
+        self.cv.notify_all();
+        let deadline = Instant::now() + Duration::from_secs(20);
+        while !g.granted.get(&id).copied().unwrap_or(false) {
+            let (ng, to) = self.cv.wait_timeout(g, Duration::from_millis(200)).unwrap();
+            g = ng;
+            if to.timed_out() && Instant::now() > deadline {
+                // the controller went away: never block the code under test forever
+                return;
+            }
+        }
+        g.granted.insert(id, false);
+        g.actors.insert(id, AState::Running);
+    }
+    fn blocked(&self) {
+        let mut g = self.inner.lock().unwrap();
+        let id = Self::actor_of_current(&g);
+        g.was_blocked.insert(id, true);
+        g.blocked_events += 1;
+    }
+}
+
+#[derive(Debug)]
+struct ScheduleRun {
+    choices: Vec<usize>,
+    branching: Vec<usize>,
+    trace: Vec<String>,
+    deadlock: bool,
+    stuck: Option<String>,
+    blocked_events: u64,
+}
+
+/// drive the actors: at every decision pick `prefix[k]` (or 0) among the enabled actors
+fn drive(s: &Arc<CoopSched>, n_actors: usize, prefix: &[usize]) -> ScheduleRun {
+    let mut run = ScheduleRun { choices: vec![], branching: vec![], trace: vec![], deadlock: false, stuck: None, blocked_events: 0 };
+    let mut k = 0usize;
+    loop {
+        // wait until every actor is at a point or done
+        let mut g = s.inner.lock().unwrap();
+        let deadline = Instant::now() + Duration::from_secs(10);
+        loop {
+            let settled = g.actors.len() >= n_actors && g.actors.values().all(|a| !matches!(a, AState::Running));
+            if settled {
+                break;
+            }
+            let (ng, _) = s.cv.wait_timeout(g, Duration::from_millis(100)).unwrap();
+            g = ng;
+            if Instant::now() > deadline {
+                run.stuck = Some(format!("actors did not settle: {:?}", g.actors));
+                run.trace = g.trace.clone();
+                return run;
+            }
+        }
+        if g.actors.values().all(|a| *a == AState::Done) {
+            run.trace = g.trace.clone();
+            run.blocked_events = g.blocked_events;
+            return run;
+        }
+        let grants = g.grants;
+        let enabled: Vec<usize> = g
+            .actors
+            .iter()
+            .filter(|(_, a)| match a {
+                AState::AtPoint { blocked_at: None, .. } => true,
+                // a blocked actor may retry once somebody else has made a step
+                AState::AtPoint { blocked_at: Some(t), .. } => grants > *t,
+                _ => false,
+            })
+            .map(|(id, _)| *id)
+            .collect();
+        if enabled.is_empty() {
+            run.deadlock = true;
+            run.trace = g.trace.clone();
+            return run;
+        }
+        let c = prefix.get(k).copied().unwrap_or(0);
+        let c = c.min(enabled.len() - 1);
+        run.choices.push(c);
+        run.branching.push(enabled.len());
+        k += 1;
+        let id = enabled[c];
+        let what = match &g.actors[&id] {
+            AState::AtPoint { what, blocked_at } => format!("{what}{}", if blocked_at.is_some() { " (retry)" } else { "" }),
+            _ => String::new(),
+        };
+        g.trace.push(format!("actor{id}:{what}"));
+        g.grants += 1;
+        g.granted.insert(id, true);
+        g.actors.insert(id, AState::Running);
+        s.cv.notify_all();
+    }
+}
+
+/// enumerate every schedule of a scenario by depth-first search over the choice points
+fn all_schedules(mut run_one: impl FnMut(&[usize]) -> (ScheduleRun, Vec<(String, String)>), st: &mut Stats, name: &str, cap: usize) -> bool {
+    let mut prefix: Vec<usize> = vec![];
+    let mut n = 0usize;
+    loop {
+        let (run, problems) = run_one(&prefix);
+        n += 1;
+        st.evaluations += 1;
+        st.traces += 1;
+        st.transitions += run.choices.len() as u64;
+        st.class(&format!("schedule:{name}"));
+        if run.blocked_events > 0 {
+            st.class("mutual-exclusion-observed");
+        }
+        st.state(&run.trace);
+        st.observe(&(name.to_string(), run.trace.clone()));
+        if n <= 2 {
+            st.sample(json!({"scenario": name, "schedule": run.trace}));
+        }
+        let mut all = problems;
+        if run.deadlock {
+            all.push(("deadlock".into(), "no actor is enabled".into()));
+        }
+        if let Some(s) = &run.stuck {
+            all.push(("MACHINERY:scheduler-stuck".into(), s.clone()));
+        }
+        if !all.is_empty() {
+            for (sig, d) in all {
+                st.violation(Violation {
+                    signature: format!("{sig}:{name}"),
+                    summary: format!("scenario {name}, schedule {:?}: {d}", run.trace),
+                    replay: json!({"kind": "c19-schedule", "scenario": name, "choices": run.choices}),
+                });
+            }
+            return false;
+        }
+        // next schedule: deepest choice that can still be incremented
+        let mut i = run.choices.len();
+        loop {
+            if i == 0 {
+                return true;
+            }
+            i -= 1;
+            if run.choices[i] + 1 < run.branching[i] {
+                prefix = run.choices[..i].to_vec();
+                prefix.push(run.choices[i] + 1);
+                break;
+            }
+        }
+        if n >= cap {
+            st.class("schedule-cap-hit");
+            return true;
+        }
+    }
+}
+
+struct AtomEnv {
+    rt: FfiRuntime,
+    server: FfiServer,
+    sock: TcpStream,
+    wstate: Arc<Mutex<WriteState>>,
+    tx: u16,
+}
+
+fn atom_env() -> Result<AtomEnv, String> {
+    let rt = FfiRuntime::new(3);
+    let wstate = Arc::new(Mutex::new(WriteState { apply: true, ..Default::default() }));
+    let points: Vec<DbOp> = (0..4).map(|i| DbOp::Add(2, i, 1)).collect();
+    let (server, addr, _l) = ffi_server(&rt, Variant::Tcp, &FilterSpec::Any, "127.0.0.1", points, wstate.clone(), [true; 4])?;
+    let sock = connect_from("127.0.0.1", addr).map_err(|e| e.to_string())?;
+    Ok(AtomEnv { rt, server, sock, wstate, tx: 0 })
+}
+
+fn user_point(k: u16) {
+    rodbus::verif::sched::point(rodbus::verif::sched::Point::User(k));
+}
+
+/// scenario 1: a client read of N registers races a transaction that rewrites all of them
+fn scenario_read_vs_transaction(env: &mut AtomEnv, n: u16, prefix: &[usize]) -> (ScheduleRun, Vec<(String, String)>) {
+    // reset (no scheduler installed)
+    update_database(&env.server, 1, Box::new(move |db| {
+        for i in 0..4 {
+            unsafe { ffi::rodbus_database_update_holding_register(db, i, 1) };
+        }
+    }));
+    let s = CoopSched::new();
+    {
+        let mut g = s.inner.lock().unwrap();
+        g.actors.insert(ACTOR_SERVER, AState::Running);
+    }
+    rodbus::verif::sched::install(Some(s.clone()));
+    env.tx = env.tx.wrapping_add(1);
+    let tx = env.tx;
+    let server_ptr = env.server.0 as usize;
+    let mut reader = env.sock.try_clone().unwrap();
+    let reply: Arc<Mutex<Option<Result<Vec<u8>, String>>>> = Arc::new(Mutex::new(None));
+    let run = std::thread::scope(|scope| {
+        let s1 = s.clone();
+        scope.spawn(move || {
+            s1.register_current(1);
+            let srv = FfiServer(server_ptr as *mut rodbus_ffi::Server);
+            update_database(&srv, 1, Box::new(move |db| {
+                for i in 0..n {
+                    user_point(i);
+                    unsafe { ffi::rodbus_database_update_holding_register(db, i, 2) };
+                }
+            }));
+            std::mem::forget(srv);
+            s1.mark_done(1);
+        });
+        let s2 = s.clone();
+        let reply2 = reply.clone();
+        scope.spawn(move || {
+            let r = socket_read(&mut reader, tx, 3, 0, n);
+            *reply2.lock().unwrap() = Some(r);
+            s2.mark_done(ACTOR_SERVER);
+        });
+        drive(&s, 2, prefix)
+    });
+    rodbus::verif::sched::install(None);
+    let mut problems = vec![];
+    match reply.lock().unwrap().take() {
+        Some(Ok(p)) => {
+            let vals: Vec<u16> = p[2..].chunks(2).map(|c| u16::from_be_bytes([c[0], c[1]])).collect();
+            let all_old = vals.iter().all(|v| *v == 1);
+            let all_new = vals.iter().all(|v| *v == 2);
+            if p[0] != 3 || vals.len() != n as usize || !(all_old || all_new) {
+                problems.push(("torn-read".to_string(), format!("a single client read observed part of a transaction: values {vals:?} (reply {})", hex(&p))));
+            }
+        }
+        Some(Err(e)) => problems.push(("client-read-failed".to_string(), e)),
+        None => problems.push(("MACHINERY:no-reply".to_string(), "reader thread produced nothing".into())),
+    }
+    (run, problems)
+}
+
+/// scenario 2: two transactions that each increment the same register (read-modify-write)
+fn scenario_two_transactions(env: &mut AtomEnv, prefix: &[usize]) -> (ScheduleRun, Vec<(String, String)>) {
+    update_database(&env.server, 1, Box::new(move |db| {
+        unsafe { ffi::rodbus_database_update_holding_register(db, 0, 100) };
+        unsafe { ffi::rodbus_database_update_holding_register(db, 1, 100) };
+    }));
+    let s = CoopSched::new();
+    rodbus::verif::sched::install(Some(s.clone()));
+    let server_ptr = env.server.0 as usize;
+    let run = std::thread::scope(|scope| {
+        for id in 1..=2usize {
+            let s1 = s.clone();
+            scope.spawn(move || {
+                s1.register_current(id);
+                let srv = FfiServer(server_ptr as *mut rodbus_ffi::Server);
+                update_database(&srv, 1, Box::new(move |db| {
+                    for reg in 0..2u16 {
+                        let mut v = 0u16;
+                        unsafe { ffi::rodbus_database_get_holding_register(db, reg, &mut v) };
+                        user_point(reg);
+                        unsafe { ffi::rodbus_database_update_holding_register(db, reg, v + id as u16) };
+                    }
+                }));
+                std::mem::forget(srv);
+                s1.mark_done(id);
+            });
+        }
+        drive(&s, 2, prefix)
+    });
+    rodbus::verif::sched::install(None);
+    let fin: Arc<Mutex<Vec<u16>>> = Arc::new(Mutex::new(vec![]));
+    let f2 = fin.clone();
+    update_database(&env.server, 1, Box::new(move |db| {
+        for reg in 0..2u16 {
+            let mut v = 0u16;
+            unsafe { ffi::rodbus_database_get_holding_register(db, reg, &mut v) };
+            f2.lock().unwrap().push(v);
+        }
+    }));
+    let fin = fin.lock().unwrap().clone();
+    let mut problems = vec![];
+    if fin != vec![103, 103] {
+        problems.push(("lost-update".to_string(), format!("two transactions each adding their id to both registers left {fin:?}, expected [103, 103]")));
+    }
+    (run, problems)
+}
+
+/// scenario 3: a client write request (applied by the application's write callback) races a
+/// transaction that reads the same registers
+fn scenario_write_request_vs_transaction(env: &mut AtomEnv, prefix: &[usize]) -> (ScheduleRun, Vec<(String, String)>) {
+    update_database(&env.server, 1, Box::new(move |db| {
+        for i in 0..4 {
+            unsafe { ffi::rodbus_database_update_holding_register(db, i, 1) };
+        }
+    }));
+    env.wstate.lock().unwrap().calls.clear();
+    let s = CoopSched::new();
+    {
+        let mut g = s.inner.lock().unwrap();
+        g.actors.insert(ACTOR_SERVER, AState::Running);
+    }
+    rodbus::verif::sched::install(Some(s.clone()));
+    env.tx = env.tx.wrapping_add(1);
+    let tx = env.tx;
+    let server_ptr = env.server.0 as usize;
+    let mut sock = env.sock.try_clone().unwrap();
+    let seen: Arc<Mutex<Vec<u16>>> = Arc::new(Mutex::new(vec![]));
+    let reply: Arc<Mutex<Option<Vec<u8>>>> = Arc::new(Mutex::new(None));
+    let run = std::thread::scope(|scope| {
+        let s1 = s.clone();
+        let seen2 = seen.clone();
+        scope.spawn(move || {
+            s1.register_current(1);
+            let srv = FfiServer(server_ptr as *mut rodbus_ffi::Server);
+            update_database(&srv, 1, Box::new(move |db| {
+                for reg in 0..3u16 {
+                    user_point(reg);
+                    let mut v = 0u16;
+                    unsafe { ffi::rodbus_database_get_holding_register(db, reg, &mut v) };
+                    seen2.lock().unwrap().push(v);
+                }
+            }));
+            std::mem::forget(srv);
+            s1.mark_done(1);
+        });
+        let s2 = s.clone();
+        let reply2 = reply.clone();
+        scope.spawn(move || {
+            // write multiple registers 0..3 = 2
+            let p = [16u8, 0, 0, 0, 3, 6, 0, 2, 0, 2, 0, 2];
+            let _ = sock.write_all(&mbap_frame(tx, 1, &p));
+            if let Ok(head) = read_exact_timeout(&mut sock, 7, 5000) {
+                let len = u16::from_be_bytes([head[4], head[5]]) as usize;
+                if let Ok(b) = read_exact_timeout(&mut sock, len - 1, 3000) {
+                    *reply2.lock().unwrap() = Some(b);
+                }
+            }
+            s2.mark_done(ACTOR_SERVER);
+        });
+        drive(&s, 2, prefix)
+    });
+    rodbus::verif::sched::install(None);
+    let mut problems = vec![];
+    let seen = seen.lock().unwrap().clone();
+    if !(seen.iter().all(|v| *v == 1) || seen.iter().all(|v| *v == 2)) {
+        problems.push(("torn-transaction-read".to_string(), format!("a transaction observed part of a client write request: {seen:?}")));
+    }
+    match reply.lock().unwrap().take() {
+        Some(b) if b == vec![16, 0, 0, 0, 3] => {}
+        other => problems.push(("write-request-reply".to_string(), format!("{other:?}"))),
+    }
+    (run, problems)
+}
+
+fn c19_atomicity(rep: &mut Report) {
+    let thorough = rep.thorough();
+    let st = on_plain_thread(|| {
+        let mut st = Stats::default();
+        let mut env = match atom_env() {
+            Ok(e) => e,
+            Err(e) => {
+                st.violation(Violation { signature: "MACHINERY:c-abi-server".into(), summary: e, replay: json!({}) });
+                return st;
+            }
+        };
+        let cap = if thorough { 20_000 } else { 4_000 };
+        for n in [2u16, 3] {
+            all_schedules(|p| scenario_read_vs_transaction(&mut env, n, p), &mut st, &format!("read-{n}-vs-transaction"), cap);
+        }
+        all_schedules(|p| scenario_two_transactions(&mut env, p), &mut st, "two-transactions", cap);
+        all_schedules(|p| scenario_write_request_vs_transaction(&mut env, p), &mut st, "write-request-vs-transaction", cap);
+        let _ = &env.rt;
+        st
+    });
+    rep.phase("atomicity: all schedules of the cooperative scheduler", st, json!({}));
+}
+
+pub fn check_c19(tier: &str) -> i32 {
+    let mut rep = Report::new(
+        "C19",
+        tier,
+        "model_checking",
+        "(1) map semantics: all sequences of <= D operations over {add, update, delete, get} x 4 point types x indices {0,1,65535} x 2 values issued through the C ABI inside device_map_add_endpoint's configuration callback, and all ordered pairs inside server_update_database transactions on a running server interleaved with client reads over a loopback socket, against a per-type reference map (exception 02 for reads touching an absent point); (2) atomicity: a cooperative scheduler (scheduling points at every acquisition of a handler mutex, every database read of the server and between the steps of the harness' transactions) enumerates every schedule of four scenarios by DFS: client read of N registers vs rewriting transaction (N=2,3), two read-modify-write transactions, client write request vs reading transaction; every reply / transaction view must be all-old or all-new, no update may be lost, no schedule may deadlock. states = distinct database states / distinct schedules",
+    );
+    rep.bounds = json!({"map_depth": if rep.thorough() { 3 } else { 2 }, "single_type_depth": if rep.thorough() { 5 } else { 4 }, "schedule_cap_per_scenario": if rep.thorough() { 20000 } else { 4000 }});
+    c19_map_semantics(&mut rep);
+    c19_atomicity(&mut rep);
+    for c in ["configure-callback-sequence", "transaction-sequence", "client-read-absent-point", "client-read-values", "mutual-exclusion-observed", "schedule:read-2-vs-transaction", "schedule:read-3-vs-transaction", "schedule:two-transactions", "schedule:write-request-vs-transaction"] {
+        rep.require_class(c);
+    }
+    if rep.stats.classes.contains_key("schedule-cap-hit") {
+        rep.caps_hit.push("schedule cap".into());
+    }
+    rep.assumptions.push("scheduling granularity is one point access / one mutex acquisition; reordering inside one access is not modelled (irrelevant under a mutex)".into());
+    rep.finish()
+}
+
+pub fn replay_c19(v: &serde_json::Value) -> Vec<(String, String)> {
+    on_plain_thread(|| {
+        if v["kind"] == "c19-db" {
+            let ops: Vec<DbOp> = serde_json::from_value(v["ops"].clone()).unwrap();
+            let (wh, _d) = write_handler(Arc::new(Mutex::new(WriteState::default())), [false; 4]);
+            let (map, got) = device_map(7, wh, ops.clone());
+            unsafe { ffi::rodbus_device_map_destroy(map) };
+            let mut r = RefDb::default();
+            let exp: Vec<DbResult> = ops.iter().map(|o| r.apply(o)).collect();
+            if got != exp {
+                return vec![("database-map-semantics".into(), format!("got {got:?} expected {exp:?}"))];
+            }
+            return vec![];
+        }
+        let name = v["scenario"].as_str().unwrap().to_string();
+        let choices: Vec<usize> = v["choices"].as_array().unwrap().iter().map(|x| x.as_u64().unwrap() as usize).collect();
+        let mut env = match atom_env() {
+            Ok(e) => e,
+            Err(e) => return vec![("MACHINERY:c-abi-server".into(), e)],
+        };
+        let (run, mut problems) = match name.as_str() {
+            "read-2-vs-transaction" => scenario_read_vs_transaction(&mut env, 2, &choices),
+            "read-3-vs-transaction" => scenario_read_vs_transaction(&mut env, 3, &choices),
+            "two-transactions" => scenario_two_transactions(&mut env, &choices),
+            _ => scenario_write_request_vs_transaction(&mut env, &choices),
+        };
+        if run.deadlock {
+            problems.push(("deadlock".into(), format!("{:?}", run.trace)));
+        }
+        problems.into_iter().map(|(s, d)| (format!("{s}:{name}"), d)).collect()
+    })
+}
